@@ -47,7 +47,8 @@ def main():
                 dst = os.path.join(wt, placement, "zz_seed_demo_test.go")
                 shutil.copy(demo_src, dst)
                 tests = re.findall(r"^func (Test\w+)\(", open(demo_src).read(), flags=re.M)
-                code, out = sh(["go", "test", "-vet=off", "-count=1", "-run", "^(%s)$" % "|".join(tests), "./" + placement + "/"], wt, 900)
+                race = ["-race"] if "-race" in meta.get("demo_cmd", "") else []  # a demonstration of a data race needs the detector
+                code, out = sh(["go", "test", "-vet=off", "-count=1"] + race + ["-run", "^(%s)$" % "|".join(tests), "./" + placement + "/"], wt, 900)
                 os.remove(dst)
                 return code, out
             d = os.path.join(wt, "zz_seed_demo")
